@@ -164,6 +164,53 @@ func runC05(c *Ctx) {
 			"the advertisement's key exactly for the main provider's entry, the fetched key exactly for the others", "an extended-provider entry can be sealed with a key other than (the advertisement's signing key for the main provider's entry, the key fetched for the entry's ID otherwise): an advertisement signed by the library then fails its own verification")
 	}
 	c.Floor("C05.S2-entry-signing-key", 1)
+	// every entry is signed afresh by every signing: in the loop that seals extended-provider entries, each way
+	// round the loop stores the new signature into the entry (an entry skipped because it "already has one" keeps a
+	// signature over the previous values of the signed fields)
+	for _, u := range uses {
+		isEP := strings.Contains(u.rec.Name+" "+typeOfX(u.rec), "epSignatureRecord")
+		for _, r := range c.Actuals(u.rec) {
+			if strings.Contains(r.Name+" "+typeOfX(r), "epSignatureRecord") {
+				isEP = true
+			}
+		}
+		if !isEP {
+			continue
+		}
+		sb := u.at.Block()
+		var head *ssa.BasicBlock
+		for d := sb; d != nil && head == nil; d = d.Idom() {
+			for _, p := range d.Preds {
+				if d.Dominates(p) && ReachableFrom(sb)[p] {
+					head = d
+				}
+			}
+		}
+		if head == nil {
+			continue
+		}
+		// the store of the element's Signature in this loop
+		var sigStore *ssa.Store
+		instrs(u.at.Parent(), func(in ssa.Instruction) {
+			if st, ok := in.(*ssa.Store); ok && head.Dominates(st.Block()) {
+				if a := c.E(st.Addr); a.Op == "field" && a.Name == "Signature" && fieldOwner(a) == "Provider" {
+					sigStore = st
+				}
+			}
+		})
+		okAll := sigStore != nil
+		where := ""
+		if sigStore != nil {
+			for _, p := range head.Preds {
+				if head.Dominates(p) && !sigStore.Block().Dominates(p) {
+					okAll = false
+					where = c.pos(posOf(p.Instrs[len(p.Instrs)-1]))
+				}
+			}
+		}
+		c.Check(okAll, "C05.S2-every-entry-signed", u.fn+" › each iteration stores the entry's new signature", u.at.Pos(), "every way round the loop passes the store of the entry's signature", "an iteration can end ("+where+") without the entry being signed afresh: its old signature (over the previous link, entries, context ID, addresses…) stays, and the advertisement the library just signed does not verify")
+	}
+	c.Floor("C05.S2-every-entry-signed", 1)
 
 	// ---- S5 what verifies is what was signed: decoding an advertisement does not rewrite it (address, metadata and
 	// the other signed fields of the advertisement and of its extended-provider entries come out as they went in)
@@ -315,6 +362,25 @@ func c05Verify(c *Ctx, verify, adPay, epPay *Fn) {
 		c.Unk("C05.S3-ep-signer-compared", key+" › extended provider loop", epCons.In.Pos(), "loop over extended providers not found")
 		return
 	}
+	// the extended-provider section is verified whenever it is present: the only condition on the advertisement's own
+	// fields under which the loop is skipped is "there is no extended-provider section"
+	{
+		skipOn := ""
+		for _, fct := range c.FactsAt(head) {
+			cx := strip(fct.Cond)
+			isAdField := func(y *X) bool {
+				y = strip(y)
+				return y != nil && y.Op == "field" && strip(y.Args[0]).Op == "param" && y.Name != "ExtendedProvider"
+			}
+			switch {
+			case isAdField(cx):
+				skipOn = factString(fct)
+			case cx.Op == "binop" && len(cx.Args) == 2 && (isAdField(cx.Args[0]) && strip(cx.Args[1]).Op == "const" || isAdField(cx.Args[1]) && strip(cx.Args[0]).Op == "const"):
+				skipOn = factString(fct)
+			}
+		}
+		c.Check(skipOn == "", "C05.S3-verify-gates", key+" › extended providers verified whenever present", head.Instrs[0].Pos(), "the extended-provider loop is entered whenever ExtendedProvider != nil", "extended-provider signatures are verified only when "+abbreviate(skipOn)+": an advertisement for which that does not hold verifies whatever its extended-provider section contains")
+	}
 	epEnv := c.E(epCons.In.(*ssa.Call))
 	epRec := epCons.X.Args[1]
 	epEq := Or(Call("bytes.Equal", Extract("0", Is(c.E(epCall.In.(*ssa.Call)))), Field("payload", Is(epRec))),
@@ -391,7 +457,7 @@ func c05Verify(c *Ctx, verify, adPay, epPay *Fn) {
 		}
 	}
 	c.Check(okMain, "C05.S3-verify-gates", key+" › main provider listed", fn.Pos(), "error when there are extended providers and none is the advertisement's provider", "missing test that the main provider is among the extended providers")
-	c.Floor("C05.S3-verify-gates", 7)
+	c.Floor("C05.S3-verify-gates", 8)
 	c.Floor("C05.S3-ep-signer-compared", 2)
 }
 
